@@ -165,14 +165,22 @@ def edited(draw, base_strategy=None):
 @st.composite
 def boundary(draw):
     """Index boundary n / n+1, self-bonds, duplicate attributes within and across blocks."""
-    struct = draw(structures(max_atoms=120, max_tuples=6, allow_empty=False))
+    big = draw(st.integers(0, 3)) == 0
+    struct = draw(structures(max_atoms=1300 if big else 120, max_tuples=6, allow_empty=False))
     n = n_atoms(struct)
-    kind = draw(st.sampled_from(["tuple_n", "tuple_n1", "attr_n", "attr_n1", "self", "dup_in", "dup_across", "huge_index", "dup_ok"]))
+    kind = draw(st.sampled_from(["tuple_n", "tuple_n1", "attr_n", "attr_n1", "self", "self", "dup_in", "dup_in3", "dup_across", "huge_index", "dup_ok"]))
+
+    def an_index():
+        # boundary-biased atom index: ends of the range, digit-width borders, small-int cache border
+        cands = [x for x in (1, 2, 9, 10, 99, 100, 255, 256, 257, 258, 999, 1000, 1001, n - 1, n) if 1 <= x <= n]
+        return draw(st.one_of(st.sampled_from(cands), st.integers(1, n)))
+
     s = dict(struct)
     s["tuples"] = [list(t) for t in struct["tuples"]]
     s["blocks"] = [[i, [list(p) for p in props]] for i, props in struct["blocks"]]
     if kind == "tuple_n" and n >= 2:
         s["tuples"].append([n, draw(st.integers(1, n - 1))])
+
     elif kind == "tuple_n1":
         s["tuples"].append(draw(st.sampled_from([[n + 1, 1], [1, n + 1], [n + 1, n + 2]])))
     elif kind == "attr_n":
@@ -181,11 +189,16 @@ def boundary(draw):
     elif kind == "attr_n1":
         s["blocks"].append([n + 1, [["mass", 7]]])
     elif kind == "self":
-        a = draw(st.integers(1, n))
+        a = an_index()
         s["tuples"].insert(draw(st.integers(0, len(s["tuples"]))), [a, a])
     elif kind == "dup_in":
-        i = draw(st.integers(1, n))
+        i = an_index()
         s["blocks"] = [b for b in s["blocks"] if b[0] != i] + [[i, [["mass", 5], ["mass", draw(st.sampled_from([5, 7]))]]]]
+    elif kind == "dup_in3":
+        # the repeated key in third or later position of one group
+        i = an_index()
+        pat = draw(st.sampled_from([["mass", "rad", "mass"], ["rad", "mass", "rad"], ["mass", "rad", "rad"], ["rad", "mass", "mass", "rad"], ["mass", "rad", "mass", "rad"]]))
+        s["blocks"] = [b for b in s["blocks"] if b[0] != i] + [[i, [[k_, draw(st.sampled_from([1, 2, 13]))] for k_ in pat]]]
     elif kind == "dup_across":
         i = draw(st.integers(1, n))
         s["blocks"] = [b for b in s["blocks"] if b[0] != i] + [[i, [["rad", 1]]], [i, [["mass", 3]]], [i, [["rad", draw(st.sampled_from([1, 2]))]]]]
